@@ -40,11 +40,26 @@ func nulStripped(v ssa.Value) bool {
 }
 
 // normForm classifies how v was normalised: it returns (caseFolded "U"/"L"/"", nulFree).
-func normForm(v ssa.Value, depth int) (string, bool) {
-	if depth > 8 {
+func normForm(v ssa.Value, depth int) (string, bool) { return normFormEnv(v, nil, depth) }
+
+type normPair struct {
+	cf string
+	nf bool
+}
+
+// normFormEnv: as normForm, with the normal form of the current function's
+// parameters given (used when the normalisation lives in a helper function).
+func normFormEnv(v ssa.Value, env map[*ssa.Parameter]normPair, depth int) (string, bool) {
+	if depth > 12 {
 		return "", false
 	}
+	normForm := func(v ssa.Value, d int) (string, bool) { return normFormEnv(v, env, d) }
 	switch x := v.(type) {
+	case *ssa.Parameter:
+		if np, ok := env[x]; ok {
+			return np.cf, np.nf
+		}
+		return "", false
 	case *ssa.Slice:
 		return normForm(x.X, depth+1)
 	case *ssa.Phi:
@@ -76,6 +91,31 @@ func normForm(v ssa.Value, depth int) (string, bool) {
 				cf, _ := normForm(c.Common().Args[0], depth+1)
 				return cf, true
 			}
+		}
+		// a helper of the library that returns a string: the normal form of what it
+		// returns, given the normal forms of its arguments
+		if callee := x.Call.StaticCallee(); callee != nil && len(callee.Blocks) > 0 && callee.Pkg != nil && x.Parent() != nil && callee.Pkg == x.Parent().Pkg && callee.Signature.Results().Len() == 1 {
+			env2 := map[*ssa.Parameter]normPair{}
+			for i, prm := range callee.Params {
+				if i < len(x.Call.Args) {
+					c, n := normForm(x.Call.Args[i], depth+1)
+					env2[prm] = normPair{c, n}
+				}
+			}
+			cf, nf := "?", true
+			for _, ret := range ssax.Returns(callee) {
+				c, n := normFormEnv(ret.Results[0], env2, depth+2)
+				if cf == "?" {
+					cf = c
+				} else if cf != c {
+					cf = ""
+				}
+				nf = nf && n
+			}
+			if cf == "?" {
+				cf = ""
+			}
+			return cf, nf
 		}
 	}
 	return "", false
